@@ -248,30 +248,120 @@ def run(chk):
     chk.ob("O20.3", "division is zero-safe (0 when the baseline is 0)", ok, sd[0] if sd else diff, "")
     ok = bool(ab) and isinstance(ab[0].value, ast.Call) and u(ab[0].value.func) == "formatter" and rat_equal(ab[0].value.args[0], parse_expr(f"{cpar} - {bpar}"))
     chk.ob("O20.3", "absolute difference == formatter(contender - baseline)", ok, ab[0] if ab else D, short(ab[0], 80) if ab else "")
-    thr = [n for n in diff.body if isinstance(n, ast.Assign) and u(n.targets[0]) == "threshold"]
-    ok = bool(thr) and u(thr[0].value) in ("10 ** (-precision)", "10 ** -precision", "10**-precision")
-    chk.ob("O20.3", "threshold == 10^-precision", ok, thr[0] if thr else diff, u(thr[0].value) if thr else "")
-    final = [n for n in diff.body if isinstance(n, ast.If) and "threshold" in u(n.test)]
-    ok1 = ok2 = ok3 = okm = False
-    if final:
-        F = final[0]
-        c1 = comparison(F.test)
-        second = F.orelse[0] if F.orelse and isinstance(F.orelse[0], ast.If) else None
-        c2 = comparison(second.test) if second is not None else None
-        if c1 and c2:
-            pos_first = u(c1[0]) == "diff" and c1[1] in (">", ">=") and u(c1[2]) == "threshold"
-            neg_second = u(c2[0]) == "diff" and c2[1] in ("<", "<=") and u(c2[2]) == "-threshold"
-            okm = pos_first and neg_second and ((c1[1] == ">=") == (c2[1] == "<="))
-            r1 = F.body[0] if isinstance(F.body[0], ast.Return) else None
-            r2 = second.body[0] if isinstance(second.body[0], ast.Return) else None
-            r3 = second.orelse[0] if second.orelse and isinstance(second.orelse[0], ast.Return) else None
-            ok1 = r1 is not None and isinstance(r1.value, ast.Call) and u(r1.value.func) == "color_greater" and isinstance(r1.value.args[0], ast.JoinedStr) and isinstance(r1.value.args[0].values[0], ast.Constant) and r1.value.args[0].values[0].value == "+"
-            ok2 = r2 is not None and isinstance(r2.value, ast.Call) and u(r2.value.func) == "color_smaller" and u(r2.value.args[0]) == "formatted"
-            ok3 = r3 is not None and isinstance(r3.value, ast.Call) and u(r3.value.func) == "color_neutral" and u(r3.value.args[0]) == "formatted"
-    chk.ob("O20.3", "mirrored thresholds (d >= thr / d <= -thr, same strictness)", okm, final[0] if final else diff, u(final[0].test) if final else "")
-    chk.ob("O20.3", "d >= thr -> colour for increase, '+' prefix", ok1, final[0] if final else diff, "")
-    chk.ob("O20.3", "d <= -thr -> colour for decrease", ok2, final[0] if final else diff, "")
-    chk.ob("O20.3", "between -> neutral", ok3, final[0] if final else diff, "")
+    # final decision evaluated over the five positions of d relative to the threshold t = 10^-precision: d in {2t, t, 0, -t, -2t}, in both modes.
+    # Tests are evaluated on values (the difference operand is the one whose definition depends on the operands), so arm order, comparison orientation
+    # and local names are irrelevant.
+    from sa import minieval
+    sel_i = diff.body.index(sel_if[0])
+    tail = [s_ for s_ in diff.body[sel_i + 1:] if not isinstance(s_, ast.FunctionDef)]
+    inputs = {bpar, cpar}
+
+    def depends_on_inputs(e, b, depth=0):
+        for n in ast.walk(e):
+            if isinstance(n, ast.Name):
+                if n.id in inputs:
+                    return True
+                if depth < 6 and b.get(n.id) is not None and depends_on_inputs(b[n.id], b, depth + 1):
+                    return True
+        return False
+
+    def value_of(e, b, depth=0):
+        env = {}
+        for n in ast.walk(e):
+            if isinstance(n, ast.Name) and n.id not in env and b.get(n.id) is not None and depth < 6:
+                env[n.id] = value_of(b[n.id], b, depth + 1)
+        return minieval.ev(e, env)
+
+    def flat_fstring(e, b, depth=0):
+        """[('lit', text) | ('val', expr)] of an f-string with local names bound to f-strings expanded."""
+        out = []
+        if isinstance(e, ast.JoinedStr):
+            for v in e.values:
+                if isinstance(v, ast.Constant):
+                    out.append(("lit", str(v.value)))
+                elif isinstance(v, ast.FormattedValue):
+                    if isinstance(v.value, ast.Name) and isinstance(b.get(v.value.id), ast.JoinedStr) and v.format_spec is None and depth < 4:
+                        out += flat_fstring(b[v.value.id], b, depth + 1)
+                    else:
+                        out.append(("val", v))
+        elif isinstance(e, ast.Name) and isinstance(b.get(e.id), ast.JoinedStr) and depth < 4:
+            out += flat_fstring(b[e.id], b, depth + 1)
+        else:
+            out.append(("val", e))
+        return out
+
+    table = {}
+    thr_vals = {}
+    failed = None
+    for pct in (True, False):
+        for k in (2, 1, 0, -1, -2):
+            cur = {}
+
+            def hook(s_, env, b):
+                cur["b"] = b
+                return None
+
+            def atom(n, env):
+                b = cur.get("b", {})
+                if isinstance(n, ast.Name) and n.id == dp[5]:
+                    return pct
+                if isinstance(n, ast.Compare) and len(n.ops) == 1:
+                    sides = [n.left, n.comparators[0]]
+                    dep = [depends_on_inputs(x, b) for x in sides]
+                    if dep.count(True) != 1:
+                        return None
+                    other = sides[1 - dep.index(True)]
+                    t = value_of(other, b)
+                    thr_vals[pct] = abs(t)
+                    d = k * abs(t)
+                    l_, r_ = (d, t) if dep[0] else (t, d)
+                    return minieval._CMP[type(n.ops[0])](l_, r_)
+                return None
+
+            try:
+                pre = [s_ for s_ in diff.body[:sel_i] if isinstance(s_, ast.Assign)]
+                out = decide(pre + [sel_if[0]] + tail, lambda n, env: (False if u(n) == "self.plain" else (True if u(n) == flagp else atom(n, env))), {}, on_stmt=hook)
+            except (Unsupported, UnknownAtom, minieval.CannotEval) as e:
+                failed = f"{type(e).__name__}: {e}"
+                break
+            if out.kind != "return" or not isinstance(out.value, ast.Call) or len(out.value.args) != 1:
+                failed = f"outcome for d = {k}t is {out.text()[:60]}, not a call of a colour function"
+                break
+            bnd = getattr(out, "bindings", {})
+            fn = out.value.func
+            fn_t = u(bnd[fn.id]) if isinstance(fn, ast.Name) and bnd.get(fn.id) is not None else u(fn)
+            parts = flat_fstring(out.value.args[0], bnd)
+            lead = "".join(t for kind, t in parts[: next((i for i, p_ in enumerate(parts) if p_[0] == "val"), len(parts))])
+            firstval = next((p_[1] for p_ in parts if p_[0] == "val"), None)
+            shows_d = firstval is not None and depends_on_inputs(firstval.value if isinstance(firstval, ast.FormattedValue) else firstval, bnd)
+            spec = u(firstval.format_spec) if isinstance(firstval, ast.FormattedValue) and firstval.format_spec is not None else ""
+            table[(pct, k)] = (fn_t, lead, shows_d, spec, bnd)
+        if failed:
+            break
+    final = [n for n in tail if isinstance(n, ast.If) and any(isinstance(x, ast.Return) for x in ast.walk(n))]
+    fnode = final[-1] if final else diff
+    if failed:
+        chk.unknown("O20.3", f"final colour decision of _diff cannot be evaluated over d in (2t, t, 0, -t, -2t): {failed}", fnode)
+    else:
+        G, S, N = "console.format.green", "console.format.red", "console.format.neutral"  # flag == True (increase is improvement)
+        for pct in (True, False):
+            mode = "relative" if pct else "absolute"
+            bnd = table[(pct, 2)][4]
+            prec = [nm for nm, v in bnd.items() if isinstance(v, ast.Constant) and isinstance(v.value, int) and not isinstance(v.value, bool)]
+            pv = None
+            import math
+            if pct in thr_vals and thr_vals[pct] > 0:
+                pv = -math.log10(thr_vals[pct])
+            spec = table[(pct, 0)][3]
+            ok = pv is not None and abs(pv - round(pv)) < 1e-9 and any(bnd[nm].value == round(pv) and nm in spec for nm in prec)
+            chk.ob("O20.3", f"threshold == 10^-precision of the printed format ({mode})", ok, fnode, f"threshold {thr_vals.get(pct)}; format spec {spec!r}", key=f"{_R}:_diff:threshold:{mode}")
+            hi, at_hi, mid, at_lo, lo = (table[(pct, k)] for k in (2, 1, 0, -1, -2))
+            chk.ob("O20.3", f"d > thr -> colour for increase, '+' prefix ({mode})", hi[0] == G and hi[1] == "+" and hi[2], fnode, f"{hi[0]}, prefix {hi[1]!r}", key=f"{_R}:_diff:above:{mode}")
+            chk.ob("O20.3", f"d < -thr -> colour for decrease, no prefix ({mode})", lo[0] == S and lo[1] == "" and lo[2], fnode, f"{lo[0]}, prefix {lo[1]!r}", key=f"{_R}:_diff:below:{mode}")
+            chk.ob("O20.3", f"between -> neutral ({mode})", mid[0] == N and mid[1] == "" and mid[2], fnode, f"{mid[0]}, prefix {mid[1]!r}", key=f"{_R}:_diff:between:{mode}")
+            mirrored = (at_hi[0], at_lo[0]) in ((G, S), (N, N)) and (at_hi[1] == "+") == (at_hi[0] == G) and at_lo[1] == ""
+            chk.ob("O20.3", f"mirrored thresholds: d == thr and d == -thr are both coloured or both neutral ({mode})", mirrored, fnode, f"d == thr -> {at_hi[0]}; d == -thr -> {at_lo[0]}",
+                   key=f"{_R}:_diff:mirror:{mode}")
     # _line passes the same operands and flag to both _diff calls, in order
     dcalls = [n for n in walk_body(line) if isinstance(n, ast.Call) and u(n.func) == "self._diff"]
     lp = params_of(line)
